@@ -120,7 +120,7 @@ def check_prediction(lg, g, spec):
 
 def body_mirror(cube, **kw):
     from maltoolbox.language import LanguageGraph
-    which = idx(kw['lang'], 4)
+    which = idx(kw['lang'], 5)
     cs = (idx(kw['c0'], 3), idx(kw['c1'], 4), idx(kw['c2'], 4), 0)
     with notrace(), reclimit():
         if which == 0:
@@ -132,12 +132,20 @@ def body_mirror(cube, **kw):
             spec = langs.L_UNI()
         elif which == 2:
             spec = langs.L_SET()
-        else:
+        elif which == 3:
             spec = langs.L_SYM()
+        else:
+            spec = langs.L_ROLE()
         lg = LanguageGraph(copy.deepcopy(spec))
+        before = lg._to_dict()
         r = check_lang_graph(lg, spec)
         if r:
             return r
+        if lg._to_dict() != before:
+            return 'the subtype / association queries changed the language graph'
+        r = check_lang_graph(lg, spec)
+        if r:
+            return 'second round of queries: ' + r
         lg.regenerate_graph()
         return check_lang_graph(lg, spec)
 
@@ -159,7 +167,7 @@ def body_ill(cube, **kw):
 
 def body_predict(cube, **kw):
     from maltoolbox.attackgraph import AttackGraph
-    which = idx(kw['lang'], 2)
+    which = idx(kw['lang'], 3)
     bits = [bool(kw['b%d' % i]) for i in range(5)]
     t0 = idx(kw['t0'], 3)
     with notrace(), reclimit():
@@ -178,6 +186,21 @@ def body_predict(cube, **kw):
                 mb.add_link(m, lcf, 'AB', 'sb', [a[0]], 'xb', [a[1]])
             if bits[4]:
                 mb.add_link(m, lcf, 'AB', 'sb', [a[0]], 'xb', [a[2]])
+        elif which == 2:
+            spec = langs.L_ROLE()
+            lg, lcf = langs.build_lang(spec)
+            types = ['Host', 'VM', 'User', ['Host', 'VM', 'User'][t0]]
+            m, a = mb.build_model(lcf, types)
+            if bits[0]:
+                mb.add_link(m, lcf, 'Hosting', 'owner', [a[0]], 'vms', [a[1]])
+            if bits[1]:
+                mb.add_link(m, lcf, 'Owns', 'owner', [a[2]], 'hosts', [a[0]])
+            if bits[2] and t0 == 0:
+                mb.add_link(m, lcf, 'Owns', 'owner', [a[2]], 'hosts', [a[3]])
+            if bits[3] and t0 == 1:
+                mb.add_link(m, lcf, 'Hosting', 'owner', [a[0]], 'vms', [a[3]])
+            if bits[4] and t0 == 2:
+                mb.add_link(m, lcf, 'Owns', 'owner', [a[3]], 'hosts', [a[0]])
         else:
             spec = langs.L_INH()
             lg, lcf = langs.build_lang(spec)
@@ -199,20 +222,20 @@ def body_predict(cube, **kw):
 
 def queries(tier):
     qs = []
-    ps = [I('lang', 0, 3), I('c0', 0, 2), I('c1', 0, 3), I('c2', 0, 3)]
+    ps = [I('lang', 0, 4), I('c0', 0, 2), I('c1', 0, 3), I('c2', 0, 3)]
     qs.append(Query(name='mirror', body=body_mirror, params=ps, pre=['lang == 0 or (c0 == 0 and c1 == 0 and c2 == 0)'], split=['c0'], timeout=500,
-                    witnesses=[({}, {'lang': 0, 'c0': 2, 'c1': 3, 'c2': 0}), ({}, {'lang': 1, 'c0': 0, 'c1': 0, 'c2': 0}), ({}, {'lang': 2, 'c0': 0, 'c1': 0, 'c2': 0}), ({}, {'lang': 3, 'c0': 0, 'c1': 0, 'c2': 0})],
-                    bound='languages: L_INH family (step s declared in 3 x 4 x 4 ways over P/A/G1), L_UNI (set operators over sibling types), L_SET, L_SYM (same field name on both ends of an association); '
+                    witnesses=[({}, {'lang': 0, 'c0': 2, 'c1': 3, 'c2': 0}), ({}, {'lang': 1, 'c0': 0, 'c1': 0, 'c2': 0}), ({}, {'lang': 2, 'c0': 0, 'c1': 0, 'c2': 0}), ({}, {'lang': 3, 'c0': 0, 'c1': 0, 'c2': 0}), ({}, {'lang': 4, 'c0': 0, 'c1': 0, 'c2': 0})],
+                    bound='languages: L_INH family (step s declared in 3 x 4 x 4 ways over P/A/G1), L_UNI (set operators over sibling types), L_SET, L_SYM (same field name on both ends of an association), L_ROLE (a field name that is also the role name of the asset in another association); '
                           'assets, super/sub links, subtype closure, per-asset associations, association lookup in both orientations for every pair of subtypes, '
                           'mirrored step links; checked again after regenerate_graph()'))
     qs.append(Query(name='ill', body=body_ill, params=[I('k', 0, len(langs.ILL) - 1)], timeout=300,
                     witnesses=[({}, {'k': 0}), ({}, {'k': 3})],
                     bound='ill-formed variants of L_INH: %s' % langs.ILL))
-    ps = [I('lang', 0, 1), I('t0', 0, 2)] + [B('b%d' % i) for i in range(5)]
+    ps = [I('lang', 0, 2), I('t0', 0, 2)] + [B('b%d' % i) for i in range(5)]
     qs.append(Query(name='predict', body=body_predict, params=ps, split=['lang', 't0'], timeout=500,
                     witnesses=[({}, {'lang': 0, 't0': 0, 'b0': True, 'b1': True, 'b2': True, 'b3': True, 'b4': False}),
                                ({}, {'lang': 1, 't0': 1, 'b0': True, 'b1': True, 'b2': True, 'b3': False, 'b4': True})],
-                    bound='4-asset models of L_UNI and L_INH (type pick for one asset, every subset of 5 links): each attack-graph edge must be predicted by a '
+                    bound='4-asset models of L_UNI, L_INH and L_ROLE (type pick for one asset, every subset of 5 links): each attack-graph edge must be predicted by a '
                           'language-graph link to a step owned by the target\'s type or an ancestor'))
     return qs
 
